@@ -21,7 +21,9 @@ RULE = (
     "values: geometry produced by the transformed entity (assembled in a fresh Mesh: vertices, written arc points, "
     "spline/polyLine points, wire lengths; or defining points for non-additive entities) == affine map applied to the "
     "geometry of the untransformed entity, as unlabelled geometry; plus copy() equivalence/independence and purity of the "
-    "helpers. non-trivial = every (entity, sequence) pair"
+    "helpers; plus, for every constructor that takes a coordinate array, two entities built from ONE float64 array (or a view "
+    "of it) with every transformation and ordered pair applied to one of them: the array and the other entity stay put. "
+    "non-trivial = every (entity, sequence) pair"
 )
 ASSUMPTIONS = [
     "default origins as documented: rotate/scale about entity.center, mirror about [0,0,0]",
@@ -221,7 +223,80 @@ def cases(tier, seed):
                 out.append({"entity": en, "seq": [a, b, c], "form": "method" if (tnames.index(a) + tnames.index(c)) % 2 == 0 else "list"})
         out.append({"entity": en, "seq": [], "form": "copy"})
     out.append({"entity": "-", "seq": [], "form": "purity"})
+    for ctor in SHARED_INPUT:
+        out.append({"entity": ctor, "seq": [], "form": "shared_input"})
     return out
+
+
+# constructors that take the user's coordinate array: (make(array) -> entity, geometry(entity) -> array, rows)
+def _shared_table():
+    import classy_blocks as cb
+    from classy_blocks.construct.point import Point
+
+    def curve_pts(e):
+        return np.array(e.discretize())
+
+    def edge_pts(e):
+        return np.array(e.curve.discretize())
+
+    def face_pts(e):
+        return np.array(e.point_array)
+
+    return {
+        "Point": (lambda a: Point(a[0]), lambda e: np.array([e.position]), 1),
+        "Arc": (lambda a: cb.Arc(a[0]), lambda e: np.array([e.point.position]), 1),
+        "Origin": (lambda a: cb.Origin(a[0]), lambda e: np.array([e.origin.position]), 1),
+        "Spline": (lambda a: cb.Spline(a), edge_pts, 5),
+        "PolyLine": (lambda a: cb.PolyLine(a), edge_pts, 5),
+        "DiscreteCurve": (lambda a: cb.DiscreteCurve(a), curve_pts, 5),
+        "LinearInterpolatedCurve": (lambda a: cb.LinearInterpolatedCurve(a), lambda e: np.array(e.discretize(count=9)), 5),
+        "SplineInterpolatedCurve": (lambda a: cb.SplineInterpolatedCurve(a), lambda e: np.array(e.discretize(count=9)), 5),
+        "Face": (lambda a: cb.Face(a), face_pts, 4),
+        "FaceSpline": (lambda a: cb.Face(a[:4], [cb.Spline(a[4:6]), None, None, cb.PolyLine(a[6:8])]), lambda e: np.vstack([e.point_array, e.edges[0].curve.discretize(), e.edges[3].curve.discretize()]), 8),
+    }
+
+
+SHARED_INPUT = ["Point", "Arc", "Origin", "Spline", "PolyLine", "DiscreteCurve", "LinearInterpolatedCurve", "SplineInterpolatedCurve", "Face", "FaceSpline"]
+_SHARED_ROWS = np.array(
+    [[0.0, 0.0, 0.0], [1.0, 0.1, 0.0], [1.1, 1.0, 0.2], [0.1, 0.9, 0.1], [0.3, -0.2, 0.05], [0.7, -0.15, 0.1], [0.0, 0.6, 0.2], [-0.1, 0.3, 0.15]]
+)
+
+
+def run_shared_input(case):
+    """two entities built from ONE float64 array of the user's: transforming one of them (every transformation, every
+    ordered pair) leaves the array and the other entity alone and moves the first by the affine map"""
+    violations = []
+    make, geom, rows = _shared_table()[case["entity"]]
+    tnames = list(TRANSFORMS)
+    execs = 0
+    for seqn in [(t,) for t in tnames] + list(itertools.product(tnames, repeat=2)):
+        if any(TRANSFORMS[t].get("origin", 0) is None and TRANSFORMS[t]["kind"] != "mirror" for t in seqn):
+            continue  # default origins are the main table's subject
+        for view in (0, 1):
+            execs += 1
+            coords = {"entity": case["entity"], "form": "shared_input", "seq": list(seqn), "view": view}
+            base = np.array(_SHARED_ROWS[:rows] + 0.25, dtype=float)
+            arr = base[:] if view else base
+            a0 = base.copy()
+            try:
+                e1, e2 = make(arr), make(arr)
+                g1, g2 = geom(e1).copy(), geom(e2).copy()
+                L, b = np.eye(3), np.zeros(3)
+                for t in seqn:
+                    Lt, bt, _ = affine_of(TRANSFORMS[t], np.zeros(3))
+                    apply_method(e1, TRANSFORMS[t])
+                    L, b = Lt @ L, Lt @ b + bt
+                h1, h2 = geom(e1), geom(e2)
+            except Exception as err:
+                violations.append({"clause": "shared-input-raised", "coords": coords, "detail": f"{type(err).__name__}: {err}"})
+                continue
+            if not np.array_equal(base, a0):
+                violations.append({"clause": "transformation-modifies-users-array", "coords": coords, "detail": f"the array given to the constructor changed by up to {np.abs(base - a0).max():.3g}"})
+            elif np.abs(h2 - g2).max() > 1e-12:
+                violations.append({"clause": "transformation-moves-another-entity", "coords": coords, "detail": f"a second entity built from the same array moved by {np.abs(h2 - g2).max():.3g}"})
+            elif h1.shape != g1.shape or np.abs(h1 - (g1 @ L.T + b)).max() > TOL:
+                violations.append({"clause": "points", "coords": coords, "detail": f"off by {np.abs(h1 - (g1 @ L.T + b)).max():.3g}"})
+    return {"violations": violations, "outcome": "shared_input", "execs": execs, "states": 1, "transitions": execs, "nontrivial": True}
 
 
 # ----------------------------------------------------------------------------
@@ -419,6 +494,8 @@ def run_case(case):
     def bad(clause, detail):
         violations.append({"clause": clause, "coords": coords, "detail": detail})
 
+    if case["form"] == "shared_input":
+        return run_shared_input(case)
     if case["form"] == "purity":
         for name, call in (
             ("functions.rotate", lambda p, v, o: f.rotate(p, 0.7, v, o)),
